@@ -128,4 +128,14 @@ theorem Src_make_term_roundtrip (c : Rat) (v : Char) (e : Option Rat) (m : Ex)
   rw [Src_make_term] at h
   exact ⟨C16_makeTerm_roundtrip c v e m h, fun env => C16_makeTerm_value c (some v) e m env h⟩
 
+/-- the translated `has_like_terms` in words: two different positions of the analysable terms carry one key, or at
+least two constants are direct operands of additions / subtractions -/
+theorem Src_has_like_terms_iff (e : Ex) :
+    Src.has_like_terms e = true ↔
+      (∃ i j : Nat, ∃ k : TermKey, i < j ∧
+          ((Src.get_terms e).filterMap getTermKey)[i]? = some k ∧
+          ((Src.get_terms e).filterMap getTermKey)[j]? = some k) ∨ 2 ≤ countFreeConsts e := by
+  rw [Src_has_like_terms, Src_get_terms]
+  exact C16_hasLike_iff e
+
 end Mathy
